@@ -125,14 +125,31 @@ def gen_body(rng, fs, own_params, callees, modes_pool, top=False):
     vars_ = []
     for _ in range(rng.choice([0, 0, 1, 2])):
         n = "v%d" % len(vars_)
+        if rng.random() < 0.3:
+            # a variable named like a template parameter of some (other) program
+            cand = [q for q in PARAMS if q not in own_params and q not in vars_]
+            if cand:
+                n = rng.choice(cand)
         body.append({"k": "var", "name": n, "type": "float", "e": expr(rng, own_params, vars_)})
         vars_.append(n)
+    ivars = []
+    if top and rng.random() < 0.4:
+        # integer variables used as call-site / operation modes
+        for j in range(rng.randint(1, 2)):
+            body.append({"k": "var", "name": "n%d" % j, "type": "int", "e": {"c": rng.randrange(0, 12), "t": []}})
+            ivars.append("n%d" % j)
     stmts = []
     for _ in range(rng.randint(1, 5)):
         stmts.append(gen_op(rng, modes_pool, own_params, vars_))
     for c in callees:
         for _ in range(rng.choice([1, 1, 2, 3, 5]) if top else rng.choice([1, 1, 2])):
-            stmts.append(gen_call(rng, c, own_params, vars_))
+            call = gen_call(rng, c, own_params, vars_)
+            if ivars and rng.random() < 0.5:
+                used = set(m.get("m") for m in call["modes"])
+                for pos in range(len(call["modes"])):
+                    if rng.random() < 0.5:
+                        call["modes"][pos] = {"lv": rng.choice(ivars), "plus": rng.randrange(0, 3)}
+            stmts.append(call)
     rng.shuffle(stmts)
     if rng.random() < 0.35:
         lv = "i"
